@@ -22,6 +22,11 @@ PROBES = [
     ("closure.upvalue.closed", "fn mk() { var x = [1, 2]; return || x; } var f = mk(); churn(); print(f());"),
     ("closure.upvalue.open", "fn run() { var x = [3, 4]; var f = || x; churn(); print(f()); x = [5]; churn(); print(f()); } run();"),
     ("closure.upvalue.chain", "fn run() { var a = [1]; var b = [2]; var c = [3]; var fa = || a; var fc = || c; var fb = || b; churn(); print(fa()); print(fb()); print(fc()); } run();"),
+    ("closure.upvalue.return.through.finally", "fn mk() { try { var p1 = 1; var p2 = 2; var p3 = 3; var data = [1, [2], 3]; return || data; } finally { churn(); } } var f = mk(); churn(); print(f());"),
+    ("closure.upvalue.return.through.finally.inline", "fn mk() { try { var a = 1; var b = 2; var c = 3; var d = 4; var e = 5; var data = [1, [2], 3]; return || data; } finally { var scratch = [9]; var more = [8]; } } var f = mk(); churn(); print(f());"),
+    ("closure.upvalue.unwind.to.catch.inline", "var keep = nil; fn thrower() { var a = 1; var b = 2; var c = 3; var d = 4; var v = [\"kept\", [1]]; keep = || v; throw \"x\"; } try { thrower(); } catch e { var s1 = [1]; var s2 = [2]; } churn(); print(keep());"),
+    ("closure.upvalue.unwind.to.catch", "var keep = nil; fn thrower() { var p1 = 1; var v = [\"kept\", [1]]; keep = || v; throw \"x\"; } try { thrower(); } catch e { churn(); } churn(); print(keep());"),
+    ("closure.upvalue.break.out.of.loop", "var fs = []; var i = 0; while true { var a = [i]; fs.push(|| a); if i == 2 { break; } i = i + 1; } churn(); for f in fs { print(f()); }"),
     ("closure.module", "import \"gcmod\"; var f = gcmod.getter; churn(); print(f());"),
     ("bound.native", "var bm = [1, 2, 3].len; churn(); print(bm());"),
     ("bound.closure", "#[constructor(new)] class O { fn m(self) { return self.v; } } fn mk() { var o = O.new(); o.v = [7]; return o.m; } var bm = mk(); churn(); print(bm());"),
